@@ -196,7 +196,7 @@ def history_task(args):
                 mm += [(i + 1,) + tuple(x) for x in m]
                 # after a raise of NaN/Inf kind or a crash nothing sensible continues (the spec stops as well)
                 last = r.trace[-1]["obs"]
-                if any(o.get("raised") in ("value", "len") for o in last if o.get("reached")):
+                if any(o.get("raised") in ("value", "len") for o in last if o.get("reached")) or r.params_overflowed():
                     break
         return mm, {"cfg": r.abstract, "events": r.trace}, None
     except Exception:
